@@ -290,6 +290,22 @@ def complex_ctor(sc, env):
     raise ValueError("STEPcomplex ctor: declaration of the pointer array not recognised")
 
 
+def ends_with_shape(strcc):
+    """StrEndsWith must look at the last |suffix| characters only: GetLiteralStr calls it for every apostrophe of a string"""
+    b = _ws(_strip(_body(strcc, r"bool\s+StrEndsWith\s*\(\s*const\s+std::string\s*&\s*(\w+)\s*,", "StrEndsWith")))
+    m = re.search(r"bool\s+StrEndsWith\s*\(\s*const\s+std::string\s*&\s*(\w+)\s*,", strcc)
+    sv = m.group(1)
+    whole = re.search(r"\b" + sv + r"\.(rfind|find|find_last_of|find_first_of)\(|for\(|while\(|std::search|strstr\(|std::mismatch|std::equal\(" + sv + r"\.begin\(\)", b)
+    if whole:
+        return ".wholeString"
+    if re.search(r"\b" + sv + r"\.substr\(\w+-\w+\)\.compare\(\w+\)", b) or \
+       re.search(r"\b" + sv + r"\.compare\(\w+-\w+,\w+,\w+\)", b) or \
+       re.search(r"(?:std::)?(?:mem|strn?)cmp\(" + sv + r"\.(?:c_str|data)\(\)\+\w+-\w+,", b) or \
+       re.search(r"std::equal\(\w+\.rbegin\(\),\w+\.rend\(\)," + sv + r"\.rbegin\(\)\)", b):
+        return ".suffixOnly"
+    raise ValueError("StrEndsWith: comparison shape not recognised (must be a compare of the last |suffix| characters)")
+
+
 def skip_comments(rf):
     """does SkipInstance have the `case '/':` that steps over a comment (peek '*', putback, ReadComment; else keep the '/')?"""
     b = _ws(_strip(_body(rf, r"Severity\s+SkipInstance\s*\(", "SkipInstance")))
@@ -508,6 +524,7 @@ def extract(repo):
     ss_st, ss_guard = subsuper(sf, env)
     nms, nms_guard = complex_ctor(sc, env)
     skipcm = skip_comments(rf)
+    ews = ends_with_shape(strcc)
     mcl, rc_iters = read_comment(rf, rh, env)
     mec = max_errors(inl, sf)
     fh_cap, fh_n, fh_exit = find_header(sf, env)
@@ -561,6 +578,9 @@ def entNmArrGuard : Option Nat := {_opt(ss_guard)}
 def nmsStorage : Storage := {nms}
 /-- bound the constructor's own copy loop puts on the index (none: it runs to the NULL entry whatever the caller collected) -/
 def nmsLoopGuard : Option Nat := {_opt(nms_guard)}
+
+/-- `StrEndsWith` (called by `GetLiteralStr` for every apostrophe): how much of the string it inspects -/
+def strEndsWithShape : EndsWithShape := {ews}
 
 /-- `SkipInstance` has the `case '/':` that steps over a comment -/
 def skipInstanceSkipsComments : Bool := {b(skipcm)}
